@@ -376,6 +376,20 @@ impl<'a> Job for E2e<'a> {
             verdicts.push(verify_with::<B, E, H, _>(proof.clone(), commitments.clone(), &mut coin, &options, t - 1, n, &positions, &qevals));
             if round == 0 {
                 let bytes = proof.to_bytes();
+                // the LARGE family must really exceed the 16-bit range in a values field and in a paths field
+                let big_values = E::ELEMENT_BYTES >= 24 && folding == 16 && self.nq >= 200;
+                let big_paths = folding == 2 && n >= (1 << 18) && self.nq >= 250;
+                if big_values || big_paths {
+                    if let Some(raw) = split_proof(&bytes) {
+                        let maxv = raw.layers.iter().map(|l| l.0.len()).max().unwrap_or(0);
+                        let maxp = raw.layers.iter().map(|l| l.1.len()).max().unwrap_or(0);
+                        if (big_values && maxv <= 65535) || (big_paths && maxp <= 65535) {
+                            o = o.fail("harness.big.not-big", format!("largest values field {} bytes, paths field {} bytes", maxv, maxp));
+                        }
+                    } else {
+                        o = o.fail("fri.proof.layout", "serialized proof does not have the documented layout");
+                    }
+                }
                 match FriProof::read_from_bytes(&bytes) {
                     Ok(p2) => {
                         if p2 != proof {
@@ -585,13 +599,42 @@ fn gen_e2e(rng: &mut Rng, tier: Tier, count: usize, emit: &mut dyn FnMut(String)
     }
 }
 
+/// LARGE proofs: every length field of the serialized proof must hold what the property's scope can produce.
+/// queried values of one layer = (distinct folded positions) × folding × ELEMENT_BYTES bytes: with folding 16,
+/// 24/32-byte elements and 200..255 queries this crosses 2^16; so do the Merkle paths of 200+ queries.  (The
+/// remainder is at most 256 × 32 = 8192 bytes and cannot cross 2^16 within the scope.)
+fn gen_big(rng: &mut Rng, tier: Tier, emit: &mut dyn FnMut(String)) {
+    let combos: [(&str, &str); 6] =
+        [("q128", "b3"), ("c64", "b3"), ("c62", "b3"), ("q128", "sha3"), ("c64", "rp64"), ("c62", "sha3")];
+    let count = if tier == Tier::Quick { 6 } else { 36 };
+    // Merkle paths of one layer beyond 2^16 bytes: folding 2 (deep tree), domain 2^18, 255 sparse queries
+    emit(format!("e2e f64 b3 2 255 2 16 255 full rand {}", rng.u64() >> 1));
+    for k in 0..count {
+        let (fld, hasher) = combos[k % combos.len()];
+        // folding 16 always crosses 2^16 bytes of queried values; folding 8 is kept for the paths
+        let n = if k % 6 == 5 { 8 } else { 16 };
+        let logb = rng.range(1, 3) as u32;
+        let logn = if tier == Tier::Quick { 13 } else { rng.range(13, 15) as u32 };
+        let logt = logn - logb;
+        let r = *rng.pick(&[0usize, 1, 3, 7, 31, 255]);
+        if remainder_len(1 << logt, 1 << logb, n, r) == 0 {
+            // remainder degree 255 never overshoots for these sizes
+            emit(format!("e2e {} {} {} 255 {} {} {} full rand {}", fld, hasher, n, logb, logt, rng.range(200, 255), rng.u64() >> 1));
+            continue;
+        }
+        let nq = rng.range(200, 255);
+        emit(format!("e2e {} {} {} {} {} {} {} full rand {}", fld, hasher, n, r, logb, logt, nq, rng.u64() >> 1));
+    }
+}
+
 impl Prop for P {
     fn id(&self) -> &'static str {
         "C15"
     }
     fn gen(&self, rng: &mut Rng, tier: Tier, n: usize, emit: &mut dyn FnMut(String)) {
         let n = default_n(tier, 1200, 12_000, n);
-        let mut groups: Vec<Vec<String>> = vec![vec![], vec![], vec![], vec![], vec![]];
+        let mut groups: Vec<Vec<String>> = vec![vec![], vec![], vec![], vec![], vec![], vec![]];
+        gen_big(rng, tier, &mut |l| groups[5].push(l));
         gen_drp(rng, tier, &mut |l| groups[0].push(l));
         gen_pos(rng, tier, &mut |l| groups[1].push(l));
         gen_nl(&mut |l| groups[2].push(l));
